@@ -151,9 +151,17 @@ def run(chk):
     # are already logged in, after expiry, with other ids) through the real loop and the Lean server model
     import srvcheck
     srvcheck.model_only(chk, "C19", runs=24 if thorough else 8, nsteps=300)
-    chk.cov["rule"] += ("; call sites: real server (h_srv) accepts exactly the documented DNS and raw (challenge+1) responses and answers raw mode with challenge-1, real client "
+    # where the 32-byte block comes from: the real main() of both programs on generated command lines and environments (-P once, repeated with
+    # longer / shorter values, attached, IODINE[D]_PASS, the prompt; lengths 0,1,31,32,33,40,79,80,100): the block must be the effective
+    # password cut at 32 and ZERO PADDED
+    import maincheck
+    maincheck.run(chk, "C19")
+    chk.cov["rule"] += ("; main(): password block after the real option handling of iodined and iodine (checks/maincheck.py); call sites: real server (h_srv) accepts exactly the documented DNS and raw (challenge+1) responses and answers raw mode with challenge-1, real client "
                         "(h_cli) sends them, for boundary/random challenges x passwords of 0..40 bytes incl. bytes >= 0x80")
 
 
 def replay(chk, path):
+    import maincheck
+    if maincheck.is_main_replay(path):
+        return maincheck.replay(chk, path)
     return vlib.pure_replay(chk, path, oracle)
